@@ -75,7 +75,7 @@ def draw(rng, i):
         n = rng.randint(1, nmax)
         return {"kind": "partition", "alg": alg, "k": k, "values": gen.part_values(rng, cls, n, k), "cls": cls, "pres": "list", "pres_seed": 0}
     if alg in ("ff", "ffd", "bf", "bfd"):
-        return C.draw_pack_case(rng, alg=alg, cls=rng.choice(["threshold", "threshold", "repeat", "equal", "random", "hardpack", "planted", "zeros"]), pres="list", nmax=nmax)
+        return C.draw_pack_case(rng, alg=alg, cls=rng.choice(["threshold", "threshold", "repeat", "equal", "random", "hardpack", "planted", "zeros", "widerange"]), pres="list", nmax=nmax)
     return C.draw_cover_case(rng, alg=alg, cls=rng.choice(["threshold", "threshold", "threshold", "equal", "random", "planted", "worst", "toosmall"]), pres="list", nmax=nmax)
 
 
